@@ -314,6 +314,49 @@ def make_strategy_class():
     return _Script
 
 
+def make_recording_middleware(lab_, fault=None):
+    """registered after SimulatedMiddleware: records that it ran (before the strategies) and optionally raises"""
+    from flumine.markets.middleware import Middleware
+    from flumine.exceptions import FlumineException
+
+    class Recording(Middleware):
+        def __init__(self):
+            self.n = 0
+
+        def __call__(self, market):
+            n = self.n
+            self.n += 1
+            lab_.log.append({"cb": "middleware", "strategy": None, "market": market.market_id, "idx": n,
+                             "now": _dt.datetime.utcnow(), "pt": market.market_book.publish_time,
+                             "status": market.market_book.status, "orders": []})
+            if fault and fault["n"] == n:
+                lab_.fault_fired = True
+                if fault.get("exc") == "flumine":
+                    raise FlumineException("injected")
+                raise RuntimeError("injected")
+
+    return Recording()
+
+
+def ledger(lb, name):
+    """normalised per-strategy result ledger (ids excluded)"""
+    st = next(s for s in lb.strategies if s.name == name)
+    out = []
+    for o in st.my_orders:
+        s = o.simulated
+        out.append({
+            "sel": o.selection_id, "side": o.side, "type": o.order_type.ORDER_TYPE.name,
+            "price": getattr(o.order_type, "price", None), "size": getattr(o.order_type, "size", None),
+            "liability": getattr(o.order_type, "liability", None),
+            "status_log": [x.name for x in o.status_log], "matched": [list(m) for m in s.matched],
+            "sm": s.size_matched, "apm": s.average_price_matched, "sc": s.size_cancelled, "sl": s.size_lapsed,
+            "sv": s.size_voided, "placed": str(o.responses.date_time_placed), "created": str(o.date_time_created),
+            "completed": str(o.date_time_execution_complete), "profit": s.profit, "runner_status": o.runner_status,
+        })
+    ops = [(r.op.get("op"), r.result if not hasattr(r.result, "name") else str(r.result), bool(r.error)) for r in st.op_results]
+    return {"orders": out, "ops": ops}
+
+
 # ------------------------------------------------------------------------------------------
 # the lab
 # ------------------------------------------------------------------------------------------
@@ -386,8 +429,8 @@ class Lab:
 
         self.fw.log_control = log_capture
 
-        for mw in scenario.get("_middleware", []):
-            self.fw.add_market_middleware(mw)
+        if scenario.get("record_mw"):
+            self.fw.add_market_middleware(make_recording_middleware(self, scenario.get("mw_fault")))
 
         Script = make_strategy_class()
         self.strategies = []
